@@ -39,6 +39,11 @@ type c27Bucket struct {
 }
 type c27In struct {
 	Buckets []c27Bucket `json:"buckets"`
+	// Shared: the columns of all buckets are sub-slices (cap > len) of ONE backing array per column position,
+	// laid out in the physical order Phys (a permutation of the bucket indices) — as when several buckets are
+	// cut out of one read buffer.  Values are the same as with independent columns; only aliasing differs.
+	Shared bool  `json:"shared,omitempty"`
+	Phys   []int `json:"phys,omitempty"`
 }
 
 var c27WireTypes = []string{"float32", "float64", "int16", "int32", "int64", "uint8", "uint16", "uint32", "uint64", "string16", "byte"}
@@ -183,7 +188,72 @@ func c27Gen(r *rng.Rand, i int, tier string) interface{} {
 		}
 		in.Buckets = append(in.Buckets, bk)
 	}
+	// one shared backing array per column, buckets cut out of it in a shuffled physical order
+	if clean && len(in.Buckets) >= 2 && r.Chance(60) {
+		in.Shared = true
+		in.Phys = make([]int, len(in.Buckets))
+		for j := range in.Phys {
+			in.Phys[j] = j
+		}
+		for j := len(in.Phys) - 1; j > 0; j-- {
+			k := r.Intn(j + 1)
+			in.Phys[j], in.Phys[k] = in.Phys[k], in.Phys[j]
+		}
+	}
 	return in
+}
+
+// c27SharedColumns builds, for an input with Shared set, every bucket's columns as sub-slices of one typed
+// backing array per column position (physical order in.Phys).  nil when the layout is not applicable (column
+// counts or types differ between buckets, ragged columns, bad permutation).
+func c27SharedColumns(in c27In) [][]interface{} {
+	nb := len(in.Buckets)
+	if !in.Shared || nb == 0 || len(in.Phys) != nb {
+		return nil
+	}
+	seen := make([]bool, nb)
+	for _, p := range in.Phys {
+		if p < 0 || p >= nb || seen[p] {
+			return nil
+		}
+		seen[p] = true
+	}
+	nc := len(in.Buckets[0].Cols)
+	for _, b := range in.Buckets {
+		if len(b.Cols) != nc {
+			return nil
+		}
+		for j, c := range b.Cols {
+			sz := mk.SizeOf(c.Type)
+			if c.Type != in.Buckets[0].Cols[j].Type || sz == 0 || len(c.Data)%sz != 0 {
+				return nil
+			}
+		}
+	}
+	out := make([][]interface{}, nb)
+	for i := range out {
+		out[i] = make([]interface{}, nc)
+	}
+	for j := 0; j < nc; j++ {
+		typ := in.Buckets[0].Cols[j].Type
+		sz := mk.SizeOf(typ)
+		var all []byte
+		start := make([]int, nb)
+		for _, p := range in.Phys {
+			start[p] = len(all) / sz
+			all = append(all, in.Buckets[p].Cols[j].Data...)
+		}
+		big, e := mk.Col(typ, all)
+		if e != nil {
+			return nil
+		}
+		bv := reflect.ValueOf(big)
+		for bi := range in.Buckets {
+			rows := len(in.Buckets[bi].Cols[j].Data) / sz
+			out[bi][j] = bv.Slice(start[bi], start[bi]+rows).Interface() // cap reaches the end of the backing array
+		}
+	}
+	return out
 }
 
 // ---- observed values ----
@@ -388,12 +458,16 @@ func c27Run(raw json.RawMessage) (res Result, err error) {
 	var hs []held
 	obs := c27Obs{FoldTie: true}
 	var coqB []string
-	for _, b := range in.Buckets {
+	shared := c27SharedColumns(in)
+	for bi, b := range in.Buckets {
 		cs := io.NewColumnSeries()
-		for _, c := range b.Cols {
+		for j, c := range b.Cols {
 			col, e := mk.Col(c.Type, c.Data)
 			if e != nil {
 				return res, e
+			}
+			if shared != nil {
+				col = shared[bi][j]
 			}
 			cs.AddColumn(c.Name, col)
 		}
@@ -646,7 +720,7 @@ func c27Run(raw json.RawMessage) (res Result, err error) {
 		on  bool
 		tag string
 	}{{dom, "property-domain"}, {res.InDomain, "in-guard"}, {zeroRows, "zero-row-bucket"}, {!sameShapes, "shape-mismatch"},
-		{!canonical, "noncanonical-key"}, {!distinct, "duplicate-key"}, {obs.TieNote != "", "tie-not-compared"},
+		{!canonical, "noncanonical-key"}, {!distinct, "duplicate-key"}, {shared != nil, "shared-backing-array"}, {obs.TieNote != "", "tie-not-compared"},
 		{obs.Dec.Code == 2 || obs.Resp.Code == 2, "decoder-panic"}} {
 		if t.on {
 			res.Tags = append(res.Tags, t.tag)
@@ -678,7 +752,7 @@ func init() {
 		CoqCaseType: "C27.case",
 		Rule: "0-4 buckets (0-5 thorough) sharing a base shape of 1-5 (1-6) columns over the 11 wire types (bool rarely), 1-5 rows per bucket (1-50 thorough, " +
 			"10% forced zero), per bucket 9% one type changed / 4% one name changed / 3% column count changed / 3% ragged columns; " +
-			"keys mostly SYM/1Min/OHLCV with default or explicit category, ~8% non-canonical (colon inside, zero value), 3% duplicate; " +
+			"60% of the unperturbed multi-bucket cases cut all buckets' columns out of one shared backing array per column (cap > len) in a shuffled physical order; keys mostly SYM/1Min/OHLCV with default or explicit category, ~8% non-canonical (colon inside, zero value), 3% duplicate; " +
 			"distinct = distinct input JSON; non-trivial = inside the theorem's domain, one shared shape, >=2 buckets and >=2 columns",
 		Gen: c27Gen,
 		Run: c27Run,
